@@ -148,9 +148,77 @@ Fixpoint prop_run (U : list Z) (done : list ev) (xs : list ev) (os : list obs) :
   | _, _ => false
   end.
 
+(* ---- open-order details along one tracking episode ------------------------------------------------
+   For one client order id [c] of instrument [i], walking the delivered events and the observed
+   order maps: an episode starts when the id becomes tracked and ends when it is observed
+   untracked or a new open request for it is recorded.  Within an episode
+     - once an "open" report with something left and exchange time T has been delivered, the id
+       (while tracked) holds open data with an exchange time >= T   ([need]);
+     - the exchange time of the held open data (inside Open or CancelInFlight(Some)) never
+       decreases and the data is never dropped                       ([hi]).
+   In particular a failed cancel restores an Open state carrying at least the greatest
+   open-report timestamp delivered so far in the episode.  Engine-side in-flight recordings and
+   cancel responses between the reports deliver nothing and must not weaken this.
+   Written against the delivered messages and the observations only. *)
+
+Definition ht (s : option order) : option Z := option_map fst (oreg s).
+
+Definition ge_opt (lo h : option Z) : bool :=
+  match lo with
+  | None => true
+  | Some T => match h with Some t => Z.leb T t | None => false end
+  end.
+
+Definition max_opt (a : option Z) (l : list Z) : option Z :=
+  fold_left (fun a t => match a with None => Some t | Some x => Some (Z.max x t) end) l a.
+
+(** the event may end the episode of (i, c) unobserved: a new open request for the id, or a full
+    account snapshot whose reports for the id are not all open reports with something left *)
+Definition resets (i c : Z) (x : ev) : bool :=
+  match x with
+  | AOrd (RecOpen r) => Z.eqb (k_inst (o_key r)) i && Z.eqb (k_cid (o_key r)) c
+  | ASnapshot _ _ => negb (open_only (ord_inputs i c [x]))
+  | _ => false
+  end.
+
+Definition ord_track (i c : Z) (st : option Z * option Z) (x : ev) (cur : option order)
+  : bool * (option Z * option Z) :=
+  match cur with
+  | None => (true, (None, None))
+  | Some _ =>
+      if resets i c x then (true, (None, ht cur))
+      else
+        let need := max_opt (fst st) (map fst (open_deliveries (ord_inputs i c [x]))) in
+        (ge_opt need (ht cur) && ge_opt (snd st) (ht cur),
+         (need, match ht cur with Some t => Some t | None => snd st end))
+  end.
+
+Definition iobs0 : iobs := IO 0 None None None [].
+Definition obs_order (i c : Z) (o : obs) : option order :=
+  olookup (io_orders (nth (Z.to_nat i) (ob_inst o) iobs0)) c.
+
+Fixpoint ord_hist_ok (i c : Z) (st : option Z * option Z) (xs : list ev) (os : list obs) : bool :=
+  match xs, os with
+  | [], [] => true
+  | x :: xs', o :: os' =>
+      let r := ord_track i c st x (obs_order i c o) in
+      fst r && ord_hist_ok i c (snd r) xs' os'
+  | _, _ => false
+  end.
+
+Definition episodes_ok (U : list Z) (xs : list ev) (os : list obs) : bool :=
+  match os with
+  | [] => true
+  | o :: _ =>
+      forallb (fun k =>
+        forallb (fun c => ord_hist_ok (Z.of_nat k) c (None, None) xs os) U)
+        (seq 0 (length (ob_inst o)))
+  end.
+
 Definition prop_b (c : case) : bool :=
   match c with
-  | C9 xs os => prop_run (flat_map ev_cids xs) [] xs os
+  | C9 xs os =>
+      prop_run (flat_map ev_cids xs) [] xs os && episodes_ok (flat_map ev_cids xs) xs os
   | C9Panic => false
   end.
 
